@@ -44,7 +44,8 @@ func (p *InPort) RemoveOpenHook(hook OpenHook) bool {
 
 	for i, h := range p.openHooks {
 		if h == hook {
-			p.openHooks = append(p.openHooks[:i], p.openHooks[i+1:]...)
+			// Copy on removal: Open iterates a snapshot of this slice outside the lock.
+			p.openHooks = append(p.openHooks[:i:i], p.openHooks[i+1:]...)
 			return true
 		}
 	}
